@@ -37,7 +37,8 @@ def _spec(draw):
   panel['missing_as_nan'] = draw(st.booleans())
   elig = draw(G.eligibility_spec(panel['ids']))
   return {'panel': panel, 'elig': elig, 'params': {'iroas': 1.0, 'n_designs': 1},
-          'index': {'order_seed': draw(st.integers(0, 10 ** 6)), 'k': draw(st.integers(1, 7)), 'bad': draw(st.integers(0, 5)) == 0, 'twice': draw(st.booleans())},
+          'index': {'order_seed': draw(st.integers(0, 10 ** 6)), 'k': draw(st.integers(1, 7)), 'bad': draw(st.integers(0, 5)) == 0, 'twice': draw(st.booleans()),
+                    'shared_elig': draw(st.integers(0, 2)) == 0},
           'sets': draw(st.lists(st.lists(st.integers(0, 6), min_size=1, max_size=5), min_size=1, max_size=4))}
 
 
@@ -60,8 +61,20 @@ def run(spec):
   det = {'geos': sp.geos, 'dates': len(sp.dates), 'missing_cells': len(panel['missing']),
          'elig': None if rows is None else {str(r[0]): ''.join(map(str, r[1:])) for r in rows}}
   before = df.copy(deep=True)
+  elig_before = None if elig_df is None else elig_df.copy(deep=True)
   try:
     ge = geoeligibility.GeoEligibility(elig_df) if elig_df is not None else None
+    if ge is not None and spec['index'].get('shared_elig') and len(sp.geos) >= 2:
+      # the same eligibility object was first used with another panel (fewer geos, other volume ranking)
+      ids_other = set(sp.geos[1:])
+      other = before[before['geo'].astype(str).isin(ids_other)].copy()
+      other[panel['resp_col']] = other[panel['resp_col']].to_numpy()[::-1].copy()
+      try:
+        d0 = tbrmmdata.TBRMMData(other, panel['resp_col'], ge)
+        d0.geo_index = sorted(d0.assignable)[:3]
+      except ValueError:
+        pass
+      cls.append('shared-eligibility-object')
     data = tbrmmdata.TBRMMData(df, panel['resp_col'], ge)
     built = 'ok'
   except ValueError as e:
